@@ -1819,4 +1819,173 @@ theorem balance_eq [Inhabited α] (native : Bool) (ty : RefType) (hty : ty.ild =
   rw [balancePairs_delivered first last ws hfl hl r hr', balanced_length first last ws hfl hl r hr']
   simp
 
+/-! ### `ref_mpi_allgatherv`, `ref_mpi_allconcat` -/
+
+theorem gathervLoop_spec (C : List Int) (srcs : List (GatherV α)) (hC : ∀ src ∈ srcs, src.counts = C) (s : Nat)
+    (hlen : lensI (srcs.map (·.localArr)) = C.drop s) (pre rest : List α) (acc : Int)
+    (hacc : acc = (pre.length : Int)) (hrest : (rest.length : Int) = (C.drop s).sum) :
+    gathervLoop s srcs (C.drop s) (displsFrom acc (C.drop s)) (pre ++ rest)
+      = some (pre ++ (srcs.map (·.localArr)).flatten) := by
+  induction srcs generalizing s pre rest acc with
+  | nil =>
+    simp only [List.map_nil, lensI] at hlen
+    rw [← hlen] at hrest
+    simp only [List.sum_nil] at hrest
+    have : rest = [] := List.eq_nil_of_length_eq_zero (by omega)
+    simp [gathervLoop, this]
+  | cons src srcs ih =>
+    simp only [lensI, List.map_cons] at hlen
+    have hs : s < C.length := by
+      have h := congrArg List.length hlen
+      simp only [List.length_cons, List.length_drop] at h
+      omega
+    have hdrop := List.drop_eq_getElem_cons hs
+    rw [hdrop] at hlen hrest ⊢
+    simp only [List.cons.injEq] at hlen
+    obtain ⟨hl1, hl2⟩ := hlen
+    have hcs : src.counts = C := hC src List.mem_cons_self
+    have hget : src.counts.getD s 0 = C[s] := by
+      rw [hcs, List.getD_eq_getElem?_getD, List.getElem?_eq_getElem hs]; rfl
+    simp only [List.sum_cons] at hrest
+    have hsum0 : 0 ≤ (C.drop (s + 1)).sum := by
+      rw [← hl2]; apply sum_nonneg_int; intro x hx
+      simp only [List.mem_map] at hx
+      obtain ⟨_, _, rfl⟩ := hx; omega
+    simp only [displsFrom, gathervLoop, hget, Int.le_refl, if_true]
+    have htake : src.localArr.take (C[s]).toNat = src.localArr := by
+      apply List.take_of_length_le; omega
+    rw [htake]
+    have hsplit : rest = rest.take src.localArr.length ++ rest.drop src.localArr.length :=
+      (List.take_append_drop _ _).symm
+    have htl : (rest.take src.localArr.length).length = src.localArr.length := by
+      rw [List.length_take]; omega
+    have hw : writeAt (pre ++ rest) acc.toNat src.localArr
+        = pre ++ src.localArr ++ rest.drop src.localArr.length := by
+      conv => lhs; rw [hsplit, ← List.append_assoc]
+      exact writeAt_mid pre _ _ _ _ (by omega) htl
+    rw [hw, ih (fun x hx => hC x (List.mem_cons_of_mem _ hx)) (s + 1) hl2 (pre ++ src.localArr)
+      (rest.drop src.localArr.length) (acc + C[s]) (by simp only [List.length_append]; omega)
+      (by rw [List.length_drop]; omega)]
+    simp [List.append_assoc]
+
+/-- the world in which rank `r` contributes `locals[r]`, every rank passes the same (true) counts and a receive
+    buffer `recv0 r` -/
+def gathervWorld (locals : World (List α)) (recv0 : Nat → List α) : World (GatherV α) :=
+  locals.mapIdx fun r l => ⟨l, lensI locals, recv0 r⟩
+
+theorem lensI_sum (L : List (List α)) : (lensI L).sum = (L.flatten.length : Int) := by
+  induction L with
+  | nil => simp [lensI]
+  | cons l L ih =>
+    simp only [lensI, List.map_cons, List.sum_cons, List.flatten_cons, List.length_append] at ih ⊢
+    rw [ih]; push_cast; rfl
+
+theorem allgatherv_eq (ty : RefType) (hty : ty.ild = true) (locals : World (List α)) (recv0 : Nat → List α)
+    (hrecv : ∀ r, r < locals.length → (recv0 r).length = locals.flatten.length) :
+    allgatherv ty (gathervWorld locals recv0) = some (locals.map fun _ => (Status.ok, locals.flatten)) := by
+  have hmpi : ty.mpiOk = true := by cases ty <;> simp_all [RefType.ild, RefType.mpiOk]
+  unfold allgatherv
+  simp only [hmpi, Bool.not_true, Bool.false_eq_true, if_false, hty, if_true]
+  have hwl : (gathervWorld locals recv0).length = locals.length := by simp [gathervWorld]
+  by_cases h1 : locals.length ≤ 1
+  · simp only [hwl, h1, if_true]
+    match locals, h1, hrecv with
+    | [], _, _ => rfl
+    | [l], _, hrecv =>
+      have hr := hrecv 0 (by simp)
+      simp only [List.flatten_cons, List.flatten_nil, List.append_nil] at hr
+      simp only [gathervWorld, List.mapIdx_cons, List.mapIdx_nil, List.map_cons, List.map_nil, lensI,
+        List.getD_cons_zero, Int.toNat_natCast, List.take_length, List.flatten_cons, List.flatten_nil,
+        List.append_nil]
+      have : writeAt (recv0 0) 0 l = l := by
+        have := writeAt_mid [] (recv0 0) [] l 0 rfl hr
+        simpa using this
+      rw [this]
+    | _ :: _ :: _, h1, _ => simp at h1
+  · simp only [hwl, h1, if_false]
+    have hloop : (gathervWorld locals recv0).map
+          (fun me => gathervLoop 0 (gathervWorld locals recv0) me.counts (displs me.counts) me.recv)
+        = (locals.map fun _ => locals.flatten).map some := by
+      apply List.ext_getElem
+      · simp [gathervWorld]
+      · intro r h1 h2
+        have hr : r < locals.length := by simpa [gathervWorld] using h1
+        simp only [List.getElem_map, gathervWorld, List.getElem_mapIdx]
+        have hloc : (locals.mapIdx fun r l => (⟨l, lensI locals, recv0 r⟩ : GatherV α)).map (·.localArr) = locals := by
+          apply List.ext_getElem
+          · simp
+          · intro i _ _; simp
+        have := gathervLoop_spec (lensI locals) (locals.mapIdx fun r l => (⟨l, lensI locals, recv0 r⟩ : GatherV α))
+          (by intro src hsrc
+              obtain ⟨i, hi, rfl⟩ := List.mem_iff_getElem.mp hsrc
+              simp)
+          0 (by rw [hloc]; rfl) [] (recv0 r) 0 (by simp)
+          (by rw [List.drop_zero, lensI_sum, hrecv r hr])
+        simp only [List.drop_zero, List.nil_append, hloc] at this
+        unfold displs
+        rw [this]
+    rw [hloop, allSome_map_some]
+    simp [List.map_map, Function.comp_def]
+
+theorem sourceOf_eq {β : Type} (p : Int) (ws : List (List β)) :
+    sourceOf p (countsI ws) = (ws.mapIdx fun r its => List.replicate its.length (p + (r : Int))).flatten := by
+  induction ws generalizing p with
+  | nil => simp [countsI, sourceOf]
+  | cons its ws ih =>
+    simp only [countsI, List.map_cons, sourceOf, Int.toNat_natCast, List.mapIdx_cons, List.flatten_cons,
+      Int.natCast_zero, Int.add_zero]
+    have := ih (p + 1)
+    simp only [countsI] at this
+    rw [this]
+    congr 2
+    apply List.ext_getElem
+    · simp
+    · intro i _ _
+      simp only [List.getElem_mapIdx]
+      congr 1
+      push_cast; omega
+
+theorem allconcat_eq [Inhabited α] (ty : RefType) (hty : ty.id = true) (ldim : Nat) (ws : World (List (List α)))
+    (hi : ∀ its ∈ ws, ∀ it ∈ its, it.length = ldim) :
+    allconcat ty ldim (balanceIn ws)
+      = some (ws.map fun _ =>
+          (Status.ok, (ws.flatten.length : Int),
+            (ws.mapIdx fun r its => List.replicate its.length (r : Int)).flatten, ws.flatten.flatten)) := by
+  have hild : ty.ild = true := by cases ty <;> simp_all [RefType.ild, RefType.id]
+  unfold allconcat
+  have hcounts : ((balanceIn ws).map fun x => (x.1 : Int)) = countsI ws := by
+    simp [balanceIn, countsI, List.map_map, Function.comp_def]
+  have htotal : isum (countsI ws) = (ws.flatten.length : Int) := by
+    rw [isum_eq_sum, countsI_sum_eq_length]
+  simp only [hcounts, htotal, hty, Bool.not_true, Bool.false_eq_true, if_false, Int.toNat_natCast]
+  have hargs : (balanceIn ws).map (fun x =>
+        (⟨x.2, (countsI ws).map (fun c => c * (ldim : Int)),
+          List.replicate (ldim * ws.flatten.length) default⟩ : GatherV α))
+      = gathervWorld (ws.map List.flatten) (fun _ => List.replicate (ldim * ws.flatten.length) default) := by
+    have hl : (countsI ws).map (fun c => c * (ldim : Int)) = lensI (ws.map List.flatten) := by
+      simp only [countsI, lensI, List.map_map, Function.comp_def]
+      apply List.map_congr_left
+      intro its hits
+      rw [length_flatten_uniform ldim its (hi its hits)]
+      push_cast; rw [Int.mul_comm]
+    rw [hl]
+    apply List.ext_getElem
+    · simp [balanceIn, gathervWorld]
+    · intro r _ _
+      simp [balanceIn, gathervWorld]
+  rw [hargs]
+  have hflat : (ws.map List.flatten).flatten = ws.flatten.flatten := List.flatten_flatten.symm
+  have hGitems : ∀ it ∈ ws.flatten, it.length = ldim := by
+    intro it hit
+    obtain ⟨its, hits, hmem⟩ := List.mem_flatten.mp hit
+    exact hi its hits it hmem
+  rw [allgatherv_eq ty hild _ _ (by
+    intro r _
+    rw [hflat, length_flatten_uniform ldim _ hGitems]
+    simp)]
+  rw [hflat]
+  have hsrc := sourceOf_eq 0 ws
+  simp only [Int.zero_add] at hsrc
+  simp [hsrc, List.map_map, Function.comp_def]
+
 end Refine.Lemmas.Comm
